@@ -60,6 +60,27 @@ class ViewModel:
     def inits(self):
         return [(m['fn'].name, m['init'], m['pre']) for m in self.ctor_models if m['init'] is not None]
 
+    def output_cells(self):
+        """State cells whose value last() hands out (directly, through Some(..)/payload, or as the back of a queue):
+        found from last()'s return term, not from field names."""
+        from .vg import subterms
+        ins = []
+        for x in subterms(self.last_ret):
+            if x[0] == 'in' and x[1] in self.touched and x[1] not in ins:
+                ins.append(x[1])
+        direct = []
+        lr = self.last_ret
+        cands = [lr]
+        if lr[0] == 'phi':
+            cands += [lr[2], lr[3]]
+        for c in cands:
+            t = c[1] if c[0] == 'some' else c
+            if t[0] == 'payload':
+                t = t[1]
+            if t[0] == 'in' and t[1] in self.touched and t[1] not in direct:
+                direct.append(t[1])
+        return direct or ins
+
     def gated_exits(self):
         """Exits of update() on which at least one state field is written or the end is reached with the gate passed."""
         return [ex for ex in self.up_exits if ex.kind == 'end' or any(t != ('in', k) for k, t in ex.fields.items())]
